@@ -169,13 +169,30 @@ func (r *vfC03Run) Do(entry string, in []byte) bool {
 	return r.do(entry, in, f)
 }
 
+// Dead reports that an entry has already panicked vfC03MaxPerKey times: the verdict for it is
+// settled, further inputs are only counted (keeps a failing run short, e.g. when a missing limit
+// turns later inputs into gigabyte allocations).
+func (r *vfC03Run) Dead(entry string) bool {
+	r.mu.Lock()
+	defer r.mu.Unlock()
+	return r.perKey[entry+"-panic"] >= vfC03MaxPerKey
+}
+
 func (r *vfC03Run) do(entry string, in []byte, f func(b []byte)) (panicked bool) {
+	if r.Dead(entry) {
+		r.k.Count("skipped_after_panics:"+entry, 1)
+		return true
+	}
 	r.Log(entry, in, true)
 	return r.guard(entry, vfC03CaseID(entry, in), in, nil, f)
 }
 
 // DoObj feeds one input to a stateful object (the log is not cut; seqID names the sequence for replay).
 func (r *vfC03Run) DoObj(entry, seqID string, in []byte, f func(b []byte)) (panicked bool) {
+	if r.Dead(entry) {
+		r.k.Count("skipped_after_panics:"+entry, 1)
+		return true
+	}
 	r.Log(entry, in, false)
 	return r.guard(entry, seqID, in, nil, f)
 }
@@ -308,7 +325,14 @@ func vfC03LenValues(limits ...uint64) []uint64 {
 	for v := range set {
 		out = append(out, v)
 	}
-	sort.Slice(out, func(i, j int) bool { return out[i] < out[j] })
+	// absurd values first (an allocation of that size fails at once), then ascending
+	sort.Slice(out, func(i, j int) bool {
+		ai, aj := out[i] >= 1<<48, out[j] >= 1<<48
+		if ai != aj {
+			return ai
+		}
+		return out[i] < out[j]
+	})
 	return out
 }
 
@@ -397,7 +421,7 @@ func vfC03Mutations(r *rand.Rand, seed []byte, fields []vfC03Field, lens []uint6
 			var encs [][]byte
 			switch fd.Kind {
 			case "varint":
-				for _, w := range []int{1, 2, 4, 8} {
+				for _, w := range []int{8, 4, 2, 1} {
 					encs = append(encs, vfC03Varint(v, w))
 				}
 			case "u8":
